@@ -392,6 +392,7 @@ impl MetadataBlockData {
     /// ```
     pub fn new_unknown(tag: u8, data: &[u8]) -> Result<Self, VerifyError> {
         verify_range!("tag", tag, 0..=126)?;
+        verify_range!("data.len", data.len(), ..(1usize << 24))?;
         Ok(Self::Unknown {
             typetag: tag,
             data: data.to_owned(),
@@ -879,7 +880,9 @@ impl Frame {
             header.channel_assignment().channels() == subframes.len(),
             "must match to the channel specification in the header"
         )?;
-        Ok(Self::from_parts(header, subframes))
+        let ret = Self::from_parts(header, subframes);
+        ret.verify()?;
+        Ok(ret)
     }
 
     /// Constructs Frame from [`FrameHeader`] and [`SubFrame`]s.
@@ -2020,6 +2023,7 @@ impl FixedLpc {
         let warm_up = heapless::Vec::from_slice(warm_up)
             .map_err(|()| VerifyError::new("warm_up", "must be shorter than (or equal to) 4"))?;
         let ret = Self::from_parts(warm_up, residual, bits_per_sample as u8);
+        ret.verify()?;
         Ok(ret)
     }
 
@@ -2117,6 +2121,11 @@ impl Lpc {
                 "must be shorter than (or equal to) `qlpc::MAX_ORDER`",
             )
         })?;
+        verify_true!(
+            "warm_up.len",
+            warm_up.len() == parameters.order(),
+            "must be identical with the LPC order"
+        )?;
         let ret = Self::from_parts(warm_up, parameters, residual, bits_per_sample as u8);
         ret.verify()?;
         Ok(ret)
@@ -2217,6 +2226,12 @@ impl QuantizedParameters {
         shift: i8,
         precision: usize,
     ) -> Result<Self, VerifyError> {
+        verify_range!("order", order, ..=(crate::constant::qlpc::MAX_ORDER))?;
+        verify_true!(
+            "coefs.len",
+            coefs.len() == order,
+            "must be identical with `order`"
+        )?;
         let ret = Self::from_parts(coefs, order, shift, precision);
         // `QuantizedParameter` doesn't have a child component, so calling
         // `verify` here is not redundant whereas it incurs redundant checks
@@ -2314,6 +2329,16 @@ impl Residual {
         remainders: &[u32],
     ) -> Result<Self, VerifyError> {
         // Some pre-construction verification
+        verify_range!(
+            "partition_order",
+            partition_order,
+            ..=(crate::constant::rice::MAX_PARTITION_ORDER)
+        )?;
+        verify_true!(
+            "rice_params.len",
+            rice_params.len() == 1usize << partition_order,
+            "must be identical with the number of partitions"
+        )?;
         let ret = Self::from_parts(
             partition_order as u8,
             block_size,
